@@ -102,6 +102,7 @@ type machine struct {
 	admAfterReject     int
 	forcedProbes       int
 	calls              int
+	midCancelled       int
 }
 
 func (mc *machine) logf(format string, a ...any) {
@@ -115,8 +116,14 @@ func (mc *machine) logf(format string, a ...any) {
 }
 
 // call performs one breaker call through the chosen entry point and checks laws 1-5.
-func (mc *machine) call(entry int, pkgLevel bool, outcome int, dur time.Duration, cancelled bool, fbNil bool) {
+//
+// ctxMode (only meaningful for the *Ctx entry points): 0 live context, 1 cancelled before the call, 2 cancelled
+// by the request itself while it runs (the caller gives up in the middle: the call was admitted, so it is
+// recorded according to the predicate like any other), 3 deadline already expired before the call.
+func (mc *machine) call(entry int, pkgLevel bool, outcome int, dur time.Duration, ctxMode int, fbNil bool) {
 	t, b, m := mc.t, mc.b, &mc.m
+	cancelled := ctxMode == 1 || ctxMode == 3
+	midCancel := func() {}
 	mc.calls++
 	// ---- pre-state for the oracles (the decision is taken before the request runs)
 	justified := false
@@ -138,6 +145,7 @@ func (mc *machine) call(entry int, pkgLevel bool, outcome int, dur time.Duration
 	req := func() error {
 		ran++
 		m.adv(dur)
+		midCancel()
 		switch outcome {
 		case oOK, oNilBad:
 			return nil
@@ -161,10 +169,20 @@ func (mc *machine) call(entry int, pkgLevel bool, outcome int, dur time.Duration
 	var fbArg error
 	fb := func(err error) error { fbRan++; fbArg = err; return fbErr }
 	ctx := context.Background()
-	if cancelled {
+	wantCtxErr := context.Canceled
+	switch ctxMode {
+	case 1:
 		c, cancel := context.WithCancel(ctx)
 		cancel()
 		ctx = c
+	case 2:
+		c, cancel := context.WithCancel(ctx)
+		defer cancel()
+		ctx, midCancel = c, cancel
+	case 3:
+		c, cancel := context.WithDeadline(ctx, time.Unix(1, 0))
+		defer cancel()
+		ctx, wantCtxErr = c, context.DeadlineExceeded
 	}
 	hasCtx := entry == 1 || entry == 3 || entry == 5 || entry == 7 || entry == 9
 	hasFb := entry >= 4 && entry <= 7
@@ -239,6 +257,7 @@ func (mc *machine) call(entry int, pkgLevel bool, outcome int, dur time.Duration
 			promiseUsed = true
 			ran++
 			m.adv(dur)
+			midCancel()
 			if outcome == oOK || outcome == oAccErr {
 				p.Accept()
 			} else {
@@ -247,11 +266,14 @@ func (mc *machine) call(entry int, pkgLevel bool, outcome int, dur time.Duration
 		}
 	}()
 	mc.logf(" %s(%s,dur=%v%s)", entryNames[entry], [...]string{"ok", "err", "accErr", "panic", "nilButUnacceptable"}[outcome], dur,
-		map[bool]string{true: ",cancelled", false: ""}[cancelled && hasCtx])
+		map[bool]string{true: [...]string{"", ",cancelled", ",cancelled-by-req", ",deadline-passed"}[ctxMode], false: ""}[hasCtx])
+	if hasCtx && ctxMode == 2 {
+		mc.midCancelled++
+	}
 
 	// ---- cancelled context: nothing runs, nothing is recorded, ctx error returned
 	if cancelled && hasCtx {
-		if got != context.Canceled || ran != 0 || fbRan != 0 || pan != nil {
+		if got != wantCtxErr || ran != 0 || fbRan != 0 || pan != nil {
 			t.Fatalf("cancelled ctx via %s: err=%v ran=%d fallbackRan=%d panic=%v; history:%s", entryNames[entry], got, ran, fbRan, pan, mc.log.String())
 		}
 		mc.logf("=ctxerr")
@@ -373,7 +395,7 @@ func TestVerifC01StateMachine(t *testing.T) {
 				mc.t = t
 				mc.call(rapid.IntRange(0, 9).Draw(t, "entry"), rapid.Bool().Draw(t, "pkgLevel"), rapid.IntRange(0, 4).Draw(t, "outcome"),
 					time.Duration(rapid.SampledFrom([]int{0, 0, 0, 1, 250, 1200, 3000}).Draw(t, "durMs"))*time.Millisecond,
-					rapid.IntRange(0, 7).Draw(t, "cancelled") == 0, rapid.Bool().Draw(t, "fallbackNil"))
+					rapid.SampledFrom([]int{0, 0, 0, 0, 0, 1, 2, 2, 3}).Draw(t, "ctxMode"), rapid.Bool().Draw(t, "fallbackNil"))
 			},
 			"burst": func(t *rapid.T) {
 				mc.t = t
@@ -382,9 +404,10 @@ func TestVerifC01StateMachine(t *testing.T) {
 				sp := time.Duration(rapid.SampledFrom([]int{0, 1, 5, 40, 300}).Draw(t, "spacingMs")) * time.Millisecond
 				entry := rapid.IntRange(0, 9).Draw(t, "entry")
 				pkg := rapid.Bool().Draw(t, "pkgLevel")
+				ctxMode := rapid.SampledFrom([]int{0, 0, 0, 2}).Draw(t, "ctxMode")
 				mc.logf(" burst[%d x", n)
 				for i := 0; i < n; i++ {
-					mc.call(entry, pkg, outcome, 0, false, false)
+					mc.call(entry, pkg, outcome, 0, ctxMode, false)
 					mc.m.adv(sp)
 				}
 				mc.logf(" ]")
@@ -412,6 +435,7 @@ func TestVerifC01StateMachine(t *testing.T) {
 		}
 		st.ClassN("calls", mc.calls)
 		st.ClassN("rejections", mc.rejections)
+		st.ClassN("calls-whose-context-ended-during-the-request", mc.midCancelled)
 	})
 }
 
@@ -433,7 +457,7 @@ func TestVerifC01Trip(t *testing.T) {
 		np := rapid.IntRange(0, 2000).Draw(t, "prefixCalls")
 		pOut := rapid.SampledFrom([]int{oOK, oOK, oErr, oAccErr}).Draw(t, "prefixOutcome")
 		for i := 0; i < np; i++ {
-			mc.call(2, false, pOut, 0, false, false)
+			mc.call(2, false, pOut, 0, 0, false)
 			mc.m.adv(time.Millisecond)
 		}
 		spacing := time.Duration(rapid.SampledFrom([]int{1, 2, 5, 10}).Draw(t, "spacingMs")) * time.Millisecond
@@ -448,7 +472,7 @@ func TestVerifC01Trip(t *testing.T) {
 			if i == total-1000 {
 				rejBefore = mc.rejections
 			}
-			mc.call(entry, false, outcome, 0, false, false)
+			mc.call(entry, false, outcome, 0, 0, false)
 			mc.m.adv(spacing)
 		}
 		rejLast := mc.rejections - rejBefore
